@@ -188,14 +188,41 @@ func TestVerifC17SM2(t *testing.T) {
 				defer wg.Done()
 				lr := hk.NewRNG(hk.Seed(), fmt.Sprintf("c17sm2/%d/%d", round, w))
 				olog := logs[w]
+				var lastErr error
+				var lastText string
 				<-start
 				for it := 0; it < iters; it++ {
 					sh := keys[lr.Intn(len(keys))]
-					kind := lr.Intn(11)
+					kind := lr.Intn(13)
 					olog.Begin() // unsynchronised, see hk.OverlapLog
 					bad := ""
 					p, msg, isFault, _ := hk.Try(func() {
 						switch kind {
+						case 11, 12:
+							// calls that FAIL, a different way in every goroutine (keys 0, n-1, n, all ones; r or s out of range): the
+							// error each call gets back is its own - its text must still be the same when the goroutine looks at it
+							// again after other goroutines have failed in other ways (and nobody writes to shared state to build it)
+							if lastErr != nil && lastErr.Error() != lastText {
+								bad = "error-value-returned-earlier-changed-its-text"
+							}
+							var err error
+							if kind == 11 {
+								badKey := [][]byte{make([]byte, 32), ref.B32(zvNm1), ref.B32(zvNI), bytes.Repeat([]byte{0xff}, 32), make([]byte, 31), make([]byte, 33)}[(w+it)%6]
+								_, _, err = SignHashed(zvNewScript(sh.stream), badKey, sh.e.B)
+								if err == nil {
+									bad = "SignHashed(invalid key) did not fail"
+								}
+							} else {
+								badR := [][]byte{make([]byte, 32), ref.B32(zvNI), bytes.Repeat([]byte{0xff}, 32), make([]byte, 31)}[(w+it)%4]
+								var ok bool
+								ok, err = VerifyHashed(sh.px.B, sh.py.B, sh.e.B, badR, sh.s.B)
+								if ok {
+									bad = "VerifyHashed(r out of range) accepted"
+								}
+							}
+							if err != nil {
+								lastErr, lastText = err, err.Error()
+							}
 						case 0:
 							rr, ss, err := SignHashed(zvNewScript(sh.stream), sh.priv.B, sh.e.B)
 							if err != nil || !bytes.Equal(rr, sh.wantR) || !bytes.Equal(ss, sh.wantS) {
